@@ -44,7 +44,7 @@ func planC04(base *core.Result, tier string, budget int, rng func(int) int) []co
 		all = append(all, core.Params{"cancel_at": k})
 		all = append(all, core.Params{"crash_at": k})
 	}
-	if n <= 25 {
+	if n <= 25 && tier == "thorough" {
 		for k1 := 1; k1 <= n; k1++ {
 			for k2 := k1 + 1; k2 <= n; k2++ {
 				all = append(all, core.Params{"fault_at": k1, "fault_kind": c04Kinds[rng(len(c04Kinds))], "fault_at2": k2, "fault_kind2": c04Kinds[rng(len(c04Kinds))]})
@@ -59,6 +59,14 @@ func planC04(base *core.Result, tier string, budget int, rng func(int) int) []co
 		}
 		all = all[:budget]
 		all[0]["_partial"] = 1
+	}
+	if tier != "thorough" && n <= 25 {
+		// the quick tier adds a few fault pairs instead of all of them
+		for i := 0; i < 6 && n >= 2; i++ {
+			k1 := 1 + rng(n-1)
+			k2 := k1 + 1 + rng(n-k1)
+			all = append(all, core.Params{"fault_at": k1, "fault_kind": c04Kinds[rng(len(c04Kinds))], "fault_at2": k2, "fault_kind2": c04Kinds[rng(len(c04Kinds))], "_partial": 1})
+		}
 	}
 	return all
 }
